@@ -204,6 +204,20 @@ func c17(tier string) int {
 // for its HTTP endpoint to answer; Main returning before that is a start-up
 // failure on the shipped configuration.
 func c17MainStarts(run *ev.Run) {
+	mainLogLists(run, "shipped-config", "the embedded logs.yaml", omniwitness.ConfigLogs)
+}
+
+// mainLogLists runs omniwitness.Main over the given log list (with a
+// distributor configured) and checks that it starts, that the log list its
+// HTTP endpoint is built on and the list the distributor was handed are both
+// exactly the configured logs (one witness map, one ID per origin), and that
+// it stops. tag = "shipped-config" keeps C17's signatures.
+func mainLogLists(run *ev.Run, tag, what string, cfgYAML []byte) {
+	saved := omniwitness.ConfigLogs
+	omniwitness.ConfigLogs = cfgYAML
+	defer func() { omniwitness.ConfigLogs = saved }()
+	sfx := map[bool]string{true: "", false: " config=" + tag}[tag == "shipped-config"]
+	onwhat := map[bool]string{true: "on-shipped-config", false: "on-config"}[tag == "shipped-config"]
 	u := uni.New(ev.Seed(), 2, nil)
 	ln, err := net.Listen("tcp", "127.0.0.1:0")
 	if err != nil {
@@ -215,7 +229,7 @@ func c17MainStarts(run *ev.Run) {
 	var askedMu sync.Mutex
 	asked := map[string]bool{}
 	var cfg omniwitness.LogConfig
-	_ = yaml.Unmarshal(omniwitness.ConfigLogs, &cfg)
+	_ = yaml.Unmarshal(cfgYAML, &cfg)
 	want, _ := cfg.AsLogMap()
 	go func() {
 		defer func() {
@@ -239,7 +253,7 @@ func c17MainStarts(run *ev.Run) {
 	for time.Now().Before(deadline) {
 		select {
 		case err := <-done:
-			run.Report("main-does-not-start-on-shipped-config", fmt.Sprintf("omniwitness.Main over the embedded logs.yaml returned before serving anything: %v", err), map[string]any{"kind": "main-start"})
+			run.Report("main-does-not-start-"+onwhat+sfx, fmt.Sprintf("omniwitness.Main over %s returned before serving anything: %v", what, err), map[string]any{"kind": "main-start"})
 			return
 		default:
 		}
@@ -247,7 +261,7 @@ func c17MainStarts(run *ev.Run) {
 		if err == nil {
 			resp.Body.Close()
 			if resp.StatusCode == 200 {
-				run.Add("main_started_on_shipped_config", 1)
+				run.Add("main_started_"+strings.ReplaceAll(onwhat, "-", "_"), 1)
 				// The distributor's first round: every log of the witness map is asked about.
 				missing := func() []string {
 					askedMu.Lock()
@@ -265,12 +279,12 @@ func c17MainStarts(run *ev.Run) {
 					time.Sleep(50 * time.Millisecond)
 				}
 				if m := missing(); len(want) > 0 && len(m) > 0 {
-					run.Report("distributor-log-list-differs-from-witness-map", fmt.Sprintf("omniwitness.Main over the embedded logs.yaml with a distributor configured: the witness map has %d logs, the distributor never asked about %d of them: %v", len(want), len(m), m), map[string]any{"kind": "main-start"})
+					run.Report("distributor-log-list-differs-from-witness-map"+sfx, fmt.Sprintf("omniwitness.Main over %s with a distributor configured: the witness map has %d logs, the distributor never asked about %d of them: %v", what, len(want), len(m), m), map[string]any{"kind": "main-start"})
 				}
 				askedMu.Lock()
 				for id := range asked {
 					if _, ok := want[id]; !ok {
-						run.Report("distributor-asks-about-unknown-log", fmt.Sprintf("the distributor asked the witness about log ID %s, which is not in the witness map", id), map[string]any{"kind": "main-start"})
+						run.Report("distributor-asks-about-unknown-log"+sfx, fmt.Sprintf("the distributor asked the witness about log ID %s, which is not in the witness map", id), map[string]any{"kind": "main-start"})
 					}
 				}
 				askedMu.Unlock()
@@ -278,12 +292,12 @@ func c17MainStarts(run *ev.Run) {
 				select {
 				case <-done:
 				case <-time.After(30 * time.Second):
-					run.Report("main-does-not-stop", "omniwitness.Main did not return within 30 s of its context being cancelled", map[string]any{"kind": "main-start"})
+					run.Report("main-does-not-stop"+sfx, "omniwitness.Main did not return within 30 s of its context being cancelled", map[string]any{"kind": "main-start"})
 				}
 				return
 			}
 		}
 		time.Sleep(50 * time.Millisecond)
 	}
-	run.Report("main-not-serving-on-shipped-config", "omniwitness.Main over the embedded logs.yaml did not answer GET /witness/v0/logs with 200 within 60 s", map[string]any{"kind": "main-start"})
+	run.Report("main-not-serving-"+onwhat+sfx, "omniwitness.Main over "+what+" did not answer GET /witness/v0/logs with 200 within 60 s", map[string]any{"kind": "main-start"})
 }
